@@ -295,6 +295,7 @@ import (
 	"context"
 	"errors"
 	"fmt"
+	"io"
 	"math"
 	"reflect"
 	"sort"
@@ -516,6 +517,23 @@ func IsBits(err error, sents []error) string {
 	return sb.String()
 }
 
+// IsForeign reports whether errors.Is matches any error that no generated validator can mean: a report must match
+// its own sentinels only (plain and %w-wrapped).
+func IsForeign(err error) bool {
+	if err == nil {
+		return false
+	}
+	foreign := []error{io.EOF, context.Canceled, context.DeadlineExceeded, errors.New("some other error"),
+		govaliderrors.ValidationError{Reason: "r", Path: "No.Such.Path", Type: "nosuchrule"}}
+	w := fmt.Errorf("wrap: %w", err)
+	for _, f := range foreign {
+		if errors.Is(err, f) || errors.Is(w, f) {
+			return true
+		}
+	}
+	return false
+}
+
 // SentinelValuesUnset: the Value of every exported ValidationError sentinel is still nil.
 func SentinelValuesUnset(sents []error) bool {
 	for _, s := range sents {
@@ -673,6 +691,7 @@ func (r *runner) writeDriver(sc *Scenario, results []*DeclResult, mode string) {
 			sb.WriteString("\t\tvar err error\n\t\tout := rt.Run(func() error { err = v.Validate(); return err })\n")
 			if has("is") {
 				sb.WriteString("\t\textra = append(extra, \"is=\"+rt.IsBits(err, sents))\n")
+				sb.WriteString("\t\textra = append(extra, fmt.Sprintf(\"foreign=%v\", rt.IsForeign(err)))\n")
 				sb.WriteString("\t\textra = append(extra, \"fn=\"+rt.Run(func() error { return Validate" + T + "(v) }))\n")
 				sb.WriteString("\t\textra = append(extra, \"bg=\"+rt.Run(func() error { return v.ValidateContext(context.Background()) }))\n")
 				sb.WriteString("\t\textra = append(extra, \"fnbg=\"+rt.Run(func() error { return Validate" + T + "Context(context.Background(), v) }))\n")
